@@ -29,10 +29,24 @@ StrOperands == UNION {[1..n -> Singles] : n \in 1..MaxStrLen}
 Operands == {[k |-> "str", chars |-> s, lo |-> 0, hi |-> 0] : s \in StrOperands}
             \cup {[k |-> "range", chars |-> <<>>, lo |-> a, hi |-> b] : a, b \in Singles \cap {x \in Atoms : TRUE}}
             \cup {[k |-> "incl", chars |-> <<>>, lo |-> 0, hi |-> 0]}
-LegalOperand(o) == o.k = "range" => o.lo <= o.hi
+\* Further spellings of a range: an end may be MIN / MAX (the first / last character of the type, X.680 51.5.2: the record holds
+\* the atom it stands for), and an end may be written as a reference to a value of the string type (v = "written as a value
+\* reference").  They denote what the plain range between the same atoms denotes.
+RangeKinds == {"range", "range_min", "range_max", "range_vlo", "range_vhi", "range_vlo_max", "range_min_vhi"}
+IsRange(o) == o.k \in RangeKinds
+RefEnds == {3, 6}
+ExtOperands == {[k |-> "range_min", chars |-> <<>>, lo |-> 1, hi |-> b] : b \in Singles}
+               \cup {[k |-> "range_max", chars |-> <<>>, lo |-> a, hi |-> N] : a \in Singles}
+               \cup {[k |-> "range_vlo", chars |-> <<>>, lo |-> a, hi |-> b] : a \in RefEnds, b \in Singles}
+               \cup {[k |-> "range_vhi", chars |-> <<>>, lo |-> a, hi |-> b] : a \in Singles, b \in RefEnds}
+               \cup {[k |-> "range_vlo_max", chars |-> <<>>, lo |-> a, hi |-> N] : a \in RefEnds}
+               \cup {[k |-> "range_min_vhi", chars |-> <<>>, lo |-> 1, hi |-> b] : b \in RefEnds}
+IsExt(o) == o.k \in RangeKinds \ {"range"}
+ToMax(o) == o.k \in {"range_max", "range_vlo_max"}
+LegalOperand(o) == IsRange(o) => o.lo <= o.hi
 
 Den(o) == CASE o.k = "str" -> {o.chars[i] : i \in 1..Len(o.chars)}
-            [] o.k = "range" -> {a \in Atoms : o.lo <= a /\ a <= o.hi}
+            [] IsRange(o) -> {a \in Atoms : o.lo <= a /\ a <= o.hi}
             [] OTHER -> InclSet
 
 RECURSIVE ExElems(_, _, _, _)
@@ -64,7 +78,9 @@ vars == <<os, ps, ty, sizepos, pos, phase>>
 
 Init == os = <<>> /\ ps = <<>> /\ ty = "?" /\ sizepos = "?" /\ pos = "?" /\ phase = "expr"
 FirstOperand(o) == phase = "expr" /\ os = <<>> /\ LegalOperand(o) /\ os' = <<o>> /\ UNCHANGED <<ps, ty, sizepos, pos, phase>>
+\* the further spellings are explored as first operand, alone or combined with a string
 AddOperand(p, o) == /\ phase = "expr" /\ os # <<>> /\ Len(os) < MaxOperands /\ LegalOperand(o)
+                    /\ IsExt(os[1]) => (o.k = "str" /\ Len(os) = 1)
                     /\ (p = "x" /\ Len(ps) > 0) => ps[Len(ps)] # "x"
                     /\ os' = Append(os, o) /\ ps' = Append(ps, p)
                     /\ UNCHANGED <<ty, sizepos, pos, phase>>
@@ -78,9 +94,11 @@ SizePositions == {"none", "before", "after", "serial", "before_ext", "after_ext"
 WideTypes == {"BMPString", "UniversalString"}
 Place(t, sp, p) == /\ phase = "expr" /\ os # <<>>
                    /\ (t \in WideTypes /\ Len(os) >= 2) => sp \in {"none", "serial"}
+                   \* (a range up to MAX spans the whole table of a wide type: minutes per definition)
+                   /\ IsExt(os[1]) => (sp \in {"none", "after"} /\ ~(t \in WideTypes /\ ToMax(os[1])))
                    /\ ty' = t /\ sizepos' = sp /\ pos' = p /\ phase' = "done"
                    /\ UNCHANGED <<os, ps>>
-Next == \/ \E o \in Operands : FirstOperand(o)
+Next == \/ \E o \in Operands \cup ExtOperands : FirstOperand(o)
         \/ \E p \in {"u", "i", "x"}, o \in Operands : AddOperand(p, o)
         \/ \E t \in KMTypes \cup OtherTypes, sp \in SizePositions, p \in {"assignment", "component"} : Place(t, sp, p)
 Spec == Init /\ [][Next]_vars
